@@ -728,6 +728,66 @@ func (ai *AI) call(fn *ssa.Function, call *ssa.Call, s *aiState) {
 			}
 		case "append":
 			res = &AV{K: 'p', Taint: taint, Nil: tUnknown}
+		case "min", "max":
+			// interval arithmetic of the builtins (integers only; other kinds stay ⊤)
+			allInt := len(args) > 0
+			for _, a := range args {
+				if a == nil || a.K != 'i' {
+					allInt = false
+				}
+			}
+			if allInt {
+				out := args[0].clone()
+				for _, a := range args[1:] {
+					n := &AV{K: 'i', Taint: out.Taint || a.Taint}
+					if bi.Name() == "min" {
+						// lower bound: min of lower bounds (−inf if any is); upper bound: min of upper bounds (finite if any is)
+						n.LoInf = out.LoInf || a.LoInf
+						if !n.LoInf {
+							n.Lo = out.Lo
+							if a.Lo < n.Lo {
+								n.Lo = a.Lo
+							}
+						}
+						switch {
+						case out.HiInf && a.HiInf:
+							n.HiInf = true
+						case out.HiInf:
+							n.Hi = a.Hi
+						case a.HiInf:
+							n.Hi = out.Hi
+						default:
+							n.Hi = out.Hi
+							if a.Hi < n.Hi {
+								n.Hi = a.Hi
+							}
+						}
+					} else {
+						n.HiInf = out.HiInf || a.HiInf
+						if !n.HiInf {
+							n.Hi = out.Hi
+							if a.Hi > n.Hi {
+								n.Hi = a.Hi
+							}
+						}
+						switch {
+						case out.LoInf && a.LoInf:
+							n.LoInf = true
+						case out.LoInf:
+							n.Lo = a.Lo
+						case a.LoInf:
+							n.Lo = out.Lo
+						default:
+							n.Lo = out.Lo
+							if a.Lo > n.Lo {
+								n.Lo = a.Lo
+							}
+						}
+					}
+					out = n
+				}
+				res = out
+			}
 		}
 		return
 	}
